@@ -28,18 +28,16 @@ Section Calc.
                               last_e := last_e s; last_res := last_res s; evals := S (evals s) |})
     end.
 
-  (* Canonical.validate_simulation (first irun): last_positions := positions; reference energy if still nan; last_results := calc.results *)
+  (* Canonical.validate_simulation (every irun): last_positions := positions; the reference energy is re-read (served from the calculator's
+     cache when nothing changed: repo 010dea2 - the shipped code did so only while it was still nan); last_results := calc.results *)
   Definition validate (s : cst) : cst :=
     let s1 := {| cfg := cfg s; catoms := catoms s; cres := cres s; last_cfg := cfg s; last_e := last_e s; last_res := last_res s; evals := evals s |} in
-    let s2 := match last_e s1 with
-              | Some _ => s1
-              | None => let (e, t) := get_energy s1 in
-                        {| cfg := cfg t; catoms := catoms t; cres := cres t; last_cfg := last_cfg t; last_e := Some e; last_res := last_res t; evals := evals t |}
-              end in
-    {| cfg := cfg s2; catoms := catoms s2; cres := cres s2; last_cfg := last_cfg s2; last_e := last_e s2; last_res := cres s2; evals := evals s2 |}.
+    let (e, t) := get_energy s1 in
+    {| cfg := cfg t; catoms := catoms t; cres := cres t; last_cfg := last_cfg t; last_e := Some e; last_res := cres t; evals := evals t |}.
 
   (* a trial: the move proposes cfg' (None = the move failed and restored the atoms itself); the criteria asks for the energy *)
-  Inductive outcome := Failed | Rejected (c' : C) | Accepted (c' : C).
+  (* ... or, between two runs of the same driver, the USER sets the atoms to c' and the next run starts with validate_simulation *)
+  Inductive outcome := Failed | Rejected (c' : C) | Accepted (c' : C) | Edited (c' : C).
 
   Definition propose (s : cst) (c' : C) : cst :=
     {| cfg := c'; catoms := catoms s; cres := cres s; last_cfg := last_cfg s; last_e := last_e s; last_res := last_res s; evals := evals s |}.
@@ -57,6 +55,7 @@ Section Calc.
     | Failed => s
     | Rejected c' => revert (snd (get_energy (propose s c')))
     | Accepted c' => save (snd (get_energy (propose s c')))
+    | Edited c' => validate (propose s c')
     end.
   Definition run (os : list outcome) (s : cst) : cst := fold_left trial os s.
 
@@ -64,7 +63,8 @@ Section Calc.
   Definition Coherent (s : cst) : Prop :=
     cres s = Some (E (cfg s)) /\ (exists a, catoms s = Some a /\ ceq a (cfg s) = true) /\ last_e s = Some (E (cfg s)) /\
     last_cfg s = cfg s /\ last_res s = Some (E (cfg s)).
-  Definition reached (o : outcome) : bool := match o with Failed => false | _ => true end.
+  Definition reached (o : outcome) : bool := match o with Failed | Edited _ => false | _ => true end.
+  Definition edited (o : outcome) : bool := match o with Edited _ => true | _ => false end.
 End Calc.
 Arguments cfg {C V}. Arguments catoms {C V}. Arguments cres {C V}. Arguments last_cfg {C V}. Arguments last_e {C V}.
-Arguments last_res {C V}. Arguments evals {C V}. Arguments Build_cst {C V}. Arguments Failed {C}. Arguments Rejected {C}. Arguments Accepted {C}.
+Arguments last_res {C V}. Arguments evals {C V}. Arguments Build_cst {C V}. Arguments Failed {C}. Arguments Rejected {C}. Arguments Accepted {C}. Arguments Edited {C}.
